@@ -45,6 +45,7 @@ def units(tier, seed):
     for i in range(0, n, step):
         us.append(('pairs', i, min(n, i + step)))
     us.append(('triples',))
+    us.append(('self',))
     us.append(('minmax',))
     for i in range(4 if tier == 'quick' else 64):
         us.append(('random', i))
@@ -236,6 +237,28 @@ def run_unit(unit, drv, res, seed, tier):
         res.nt("triples-table-1")
         res.nt("triples-table-2")
         res.exhaustive_done['boundary-triples'] = True
+    elif kind == 'self':
+        # the same value reached twice through one shared reference (a == a): equality must still be
+        # decided by the values (NaN, and containers holding NaN, are unequal to themselves)
+        cases, meta = [], []
+        forms = ["a == a", "a != a", "a in [a]", "[a] == [a]", "{'k': a} == {'k': a}", "[a].all(x, x == x)",
+                 "[[a]].exists(l, l != l)", "[a, a][0] == [a, a][1]"]
+        for v in VALUES:
+            for f in forms:
+                cases.append(exec_case(len(cases), f, [("a", v)]))
+                meta.append((v, f))
+        out = drv.run(cases, 'self')
+        for c, r, (v, f) in zip(cases, out, meta):
+            res.evaluations += 1
+            res.nt(f + canon(v))
+            o = top_outcome(r)
+            e = cel_eq(v, v)
+            exp = (not e) if ('!=' in f) else e
+            if not (o[0] == 'ok' and o[1] == ('b', exp)):
+                res.violation(o[0] if is_crash(o) else 'wrong-value', 'value compared with itself through a shared reference',
+                              crash_sig(o) if is_crash(o) else 'reflexive equality differs from the values denoted', c,
+                              expected=exp, observed=fmt_outcome(o))
+        res.exhaustive_done['self-comparison'] = True
     elif kind == 'minmax':
         groups = [[v for v in VALUES if v[0] in NUMERIC and not (v[0] == 'd' and v[1] != v[1])][::2],
                   [v for v in VALUES if v[0] == 's']]
